@@ -331,12 +331,12 @@ axiom i2b5: forall x Int {i2b(x)} :: 2147483648 <= x && x < 4294967296 ==> i2b(x
 axiom i2bn1: forall x Int {i2b(x)} :: 0 - 128 <= x && x < 0 ==> i2b(x) == byte(256 + x)
 axiom i2bn2: forall x Int {i2b(x)} :: 0 - 32768 <= x && x < 0 - 128 ==> i2b(x) == byte((65536 + x) % 256) ++ byte((65536 + x) / 256)
 
-pure be4(e Int) Bytes = byte(e / 16777216) ++ byte((e / 65536) % 256) ++ byte((e / 256) % 256) ++ byte(e % 256)
+opaque pure be4(e Int) Bytes = byte(e / 16777216) ++ byte((e / 65536) % 256) ++ byte((e / 256) % 256) ++ byte(e % 256)
 opaque pure fbe(e Int) Bytes = e >= 0 ? be4(e) : (e >= 0 - 128 ? be4(256 + e) : be4(65536 + e))
 
 func fourBytesBE(num) (r)
   pure
-  reveal fbe
+  reveal fbe, be4
   ensures [C06,C08] len(r) == 4 && !isnil(r)
   // one clause per length class of the integer encoding (keeps each query small)
   ensures [C06,C08] num == 0 ==> r == fbe(num)
@@ -349,15 +349,17 @@ func fourBytesBE(num) (r)
   ensures [C06,C08] 0 - 32768 <= num && num < 0 - 128 ==> r == fbe(num)
 
 // distinct epochs have distinct key fragments (so per-epoch lists never collide)
-lemma be4Bytes [C06,C08]: forall a Int, b Int :: 0 <= a && a < 4294967296 && 0 <= b && b < 4294967296 && be4(a) == be4(b) ==>
+lemma be4Bytes [C06,C08] reveal be4: forall a Int, b Int {be4(a), be4(b)} :: 0 <= a && a < 4294967296 && 0 <= b && b < 4294967296 && be4(a) == be4(b) ==>
       a / 16777216 == b / 16777216 && (a / 65536) % 256 == (b / 65536) % 256 && (a / 256) % 256 == (b / 256) % 256 && a % 256 == b % 256
 lemma bytesInjective [C06,C08]: forall a Int, b Int :: 0 <= a && a < 4294967296 && 0 <= b && b < 4294967296 &&
       a / 16777216 == b / 16777216 && (a / 65536) % 256 == (b / 65536) % 256 && (a / 256) % 256 == (b / 256) % 256 && a % 256 == b % 256 ==> a == b
-// the fragment computed for a (small) negative number is that of a non-negative epoch at least 128
+lemma be4Injective [C06,C08] using be4Bytes: forall a Int, b Int {be4(a), be4(b)} :: 0 <= a && a < 4294967296 && 0 <= b && b < 4294967296 && be4(a) == be4(b) ==> a == b
+lemma be4Len [C06,C08] reveal be4: forall e Int {be4(e)} :: 0 <= e && e < 4294967296 ==> len(be4(e)) == 4
 lemma fbeNonNegative [C06,C08] reveal fbe: forall e Int {fbe(e)} :: 0 <= e ==> fbe(e) == be4(e)
-lemma fbeInjective [C06,C08] reveal fbe: forall a Int, b Int {fbe(a), fbe(b)} :: 0 <= a && a < 4294967296 && 0 <= b && b < 4294967296 && fbe(a) == fbe(b) ==> a == b
-lemma fbeLen [C06,C08] reveal fbe: forall e Int {fbe(e)} :: 0 - 32768 <= e && e < 4294967296 ==> len(fbe(e)) == 4
-lemma fbeNegative [C08] reveal fbe: forall e Int :: 0 - 254 <= e && e < 0 ==> fbe(e) == be4(e >= 0 - 128 ? 256 + e : 65536 + e) && (e >= 0 - 128 ? 256 + e : 65536 + e) >= 128
+// the fragment computed for a (small) negative number is that of a non-negative epoch at least 128
+lemma fbeNegative [C08] reveal fbe: forall e Int {fbe(e)} :: 0 - 254 <= e && e < 0 ==> fbe(e) == be4(e >= 0 - 128 ? 256 + e : 65536 + e) && (e >= 0 - 128 ? 256 + e : 65536 + e) >= 128
+lemma fbeInjective [C06,C08] using be4Injective, fbeNonNegative: forall a Int, b Int {fbe(a), fbe(b)} :: 0 <= a && a < 4294967296 && 0 <= b && b < 4294967296 && fbe(a) == fbe(b) ==> a == b
+lemma fbeLen [C06,C08] using be4Len, fbeNonNegative, fbeNegative: forall e Int {fbe(e)} :: 0 - 254 <= e && e < 4294967296 ==> len(fbe(e)) == 4
 @*/
 
 /*@
